@@ -119,6 +119,31 @@ def np_array(shape, dtype="float32"):
     return a
 
 
+_hooked_cls = []
+
+
+def hooked_shape_array(shape, dtype="float32"):
+    """an ndarray subclass whose `shape` is a property that has itself been instrumented (as every function of a
+    package under the import hook is): reading it DURING a check makes a jaxtyped call, which makes another one"""
+    if not _hooked_cls:
+        import typeguard
+
+        ns = {"np": np, "jaxtyped": jaxtyped, "tc": typeguard.typechecked}
+        exec_src(
+            "@jaxtyped(typechecker=tc)\n"
+            "def _as_tuple(t: tuple, n: int) -> tuple:\n"
+            "    return tuple(t)\n"
+            "class HookedShapeArray(np.ndarray):\n"
+            "    @property\n"
+            "    @jaxtyped(typechecker=tc)\n"
+            "    def shape(self) -> tuple:\n"
+            "        return _as_tuple(np.ndarray.shape.__get__(self), 0)\n",
+            ns,
+        )
+        _hooked_cls.append(ns["HookedShapeArray"])
+    return np_array(shape, dtype).view(_hooked_cls[0])
+
+
 _jax_cache = {}
 
 
